@@ -982,8 +982,20 @@ def sh_rekeyed(m, k):
     the file's value"""
     j, a, b = z3.Int("shp_j"), z3.Int("shp_a"), z3.Int("shp_b")
     if isinstance(m, PyDict):
-        zero = z3.is_int_value(z3.simplify(k)) and z3.simplify(k).as_long() == 0
-        return [("map-holds-the-first-entries", z3.BoolVal(bool(zero and not m.d and not m.sym)))]
+        ks = z3.simplify(k) if z3.is_expr(k) else z3.IntVal(k)
+        if not z3.is_int_value(ks):
+            return [("map-holds-the-first-entries", z3.BoolVal(False))]
+        kk = ks.as_long()
+        # concrete-length run (loops unrolled): an ordinary dict whose keys are (symbolic) address pairs
+        ents = [(kk_, v) for kk_, v in m.d.items()] + [(e[0], e[1]) for e in m.sym]
+        if len(ents) != kk or any(not (isinstance(a_, tuple) and len(a_) == 2) for a_, _ in ents):
+            return [("map-holds-the-first-entries", z3.BoolVal(kk == 0 and not ents))]
+        cs = []
+        for q in range(kk):
+            key = sh_key(z3.IntVal(q))
+            cs.append(z3.Or(*[z3.And(ival(a_[0]) == B.EV_A(key), ival(a_[1]) == B.EV_B(key), rval(v) == sh_val(key))
+                              for a_, v in ents]))
+        return [("map-holds-the-first-entries", z3.And(*cs) if cs else z3.BoolVal(True))]
     if not isinstance(m, SDict) or m.arity != 2:
         return [("map-holds-the-first-entries", z3.BoolVal(False))]
     key = lambda q: sh_key(q)
@@ -1025,7 +1037,7 @@ class ParseSensitiveHosts(Contract):
 
     def setup(self, I, variant):
         from pyvc.values import SymDict
-        nS, n, nh = z3.Int("doc_nS"), z3.Int("doc_n_sensitive"), z3.Int("doc_num_hosts")
+        nS, n, nh = size_var(I, "doc_nS", len(CONC_SUBNETS)), size_var(I, "doc_n_sensitive", 2), z3.Int("doc_num_hosts")
         j, i2 = z3.Int("hs_j"), z3.Int("hs_i")
         I.ctx.assume(z3.And(nS >= 2, n >= 0, nh >= 1, z3.ForAll([j], doc_size(j) >= 0)))
         I.ctx.assume(z3.ForAll([j, i2], z3.Implies(z3.And(0 <= j, j < i2, i2 < n), sh_key(j) != sh_key(i2))))
@@ -1034,7 +1046,7 @@ class ParseSensitiveHosts(Contract):
         keys = SymSeq(n, lambda q: SymV(sh_key(ival(q)), "name"), "sensitive_hosts.keys")
         sh = SymDict(lambda k: z3.BoolVal(True), lambda k: SymV(sh_val(nameval(k)), "real", pytag=sh_vtag(nameval(k))),
                      keys=keys, label="sensitive_hosts")
-        lo = loader_obj(I, subnets=subnets_seq(nS), num_hosts=SymV(nh, "int"),
+        lo = loader_obj(I, subnets=subnets_seq(nS, I), num_hosts=SymV(nh, "int"),
                         yaml_dict=PyDict({"sensitive_hosts": sh}, fresh=False))
         S = Scope()
         S.extra.update(n=n)
